@@ -47,6 +47,14 @@ func patchTreasuresOneSwamp(ctx context.Context, g Gateway, in *hydrapb.PatchTre
 		return nil, false, nil
 	}
 
+	for _, patch := range in.GetPatches() {
+		// a treasure with an empty key can be written to the swamp file but not read back: the
+		// whole swamp would fail to load the next time it is opened
+		if patch.GetKey() == "" {
+			return nil, false, status.Error(codes.InvalidArgument, "patch Key cannot be empty")
+		}
+	}
+
 	// Cap validation runs before swamp summon so a malformed Cap is
 	// surfaced as InvalidArgument regardless of swamp existence.
 	bodyCapPred, bodyCapMax, capErr := buildBodyCapPredicate(in.GetCap())
